@@ -44,6 +44,12 @@ func EvalTerm(t any) []byte {
 			b[0] &= 0x7f
 		}
 		return b
+	case "rep":
+		out := make([]byte, I(m["n"]))
+		for i := range out {
+			out[i] = byte(I(m["b"]))
+		}
+		return out
 	case "none":
 		return nil
 	}
